@@ -1,6 +1,6 @@
 (* C15, converse direction: annotation lists, the cpp_type clause, types (recursive). *)
 From PVIdl Require Import Comb Ast Parser Print Proofs.Total Proofs.RoundTok Proofs.RoundPath Proofs.RoundAnn Proofs.RoundTy
-  Proofs.RoundKit Proofs.InvKit Proofs.InvTok.
+  Proofs.RoundKit Proofs.Lex Proofs.InvKit Proofs.InvTok.
 From Coq Require Import ZifyN ZifyNat ZifyBool.
 From Coq Require String.
 Import String.StringSyntax.
@@ -104,16 +104,21 @@ Qed.
 End Ann.
 
 (* ---------- types ---------- *)
-(* the exclusion for types: a path type whose first segment is a base-type word (such a word can only be read as a path
-   when a non-ASCII letter follows it; "list", "set", "map" are read as type names when no '<' follows and are well-formed) *)
-Fixpoint heads_ok_ty (t : cty) : bool :=
-  match t with
-  | CTBase _ => true
-  | CTList _ _ inner _ _ | CTSet _ _ _ inner _ => heads_ok_type inner
-  | CTMap _ _ _ key _ _ _ value _ => heads_ok_type key && heads_ok_type value
-  | CTPath p => negb (bytes_in (cp_head p) base_words)
-  end
-with heads_ok_type (t : ctype) : bool := match t with CType t _ => heads_ok_ty t end.
+(* A base-type word (and, for constants, true / false; for fields, required / optional) is read as a path only when the
+   word is directly followed by a non-ASCII letter or digit: the keyword alternative demands that no alphanumeric
+   character (Unicode) follows, the identifier stops at the first non-ASCII byte.  Every token of the grammar begins with
+   an ASCII byte, so this cannot happen inside an accepted document: the lemmas below conclude well-formedness from
+   [hd_ascii r], "the text that follows begins with an ASCII byte (or is empty)", which every use site knows from what
+   it read next. *)
+Lemma keyword_path_end kw tl Z : wf_ptail tl = true -> wordend Z = true ->
+  is_perr (p_keyword kw (kw ++ pr_path_tail tl Z)) -> False.
+Proof.
+  intros Wt Hz H. rewrite rt_keyword in H; [exact H|]. destruct tl as [|[[b1 b2] s0] tl]; cbn [pr_path_tail]; [exact Hz|].
+  unfold wf_ptail in Wt. cbn [forallb fst snd] in Wt. bsplit Wt. apply blank_then; auto with bsdb.
+Qed.
+Lemma keyword_path_ascii kw tl r : wf_ptail tl = true -> hd_ascii r = true -> nid r = true ->
+  is_perr (p_keyword kw (kw ++ pr_path_tail tl r)) -> False.
+Proof. intros Wt Ha Hn. apply keyword_path_end; [exact Wt|now apply wordend_of]. Qed.
 
 Lemma kwend_nid r : kwend r -> nid r = true.
 Proof.
@@ -145,9 +150,9 @@ Lemma whead_nonnil x : whead x -> x <> [].
 Proof. intros [b0 [rest [-> _]]]. discriminate. Qed.
 
 Definition tyP (c : cty) (r : list byte) : Prop :=
-  (heads_ok_ty c = true -> wf_ty c = true) /\ (ty_ends_word c = true -> nid r = true) /\ whead (pr_ty c r).
+  (hd_ascii r = true -> wf_ty c = true) /\ (ty_ends_word c = true -> nid r = true) /\ whead (pr_ty c r).
 Definition typeP (c : ctype) (r : list byte) : Prop :=
-  (heads_ok_type c = true -> wf_type c = true) /\ (type_ends_word c = true -> nid r = true) /\ whead (pr_type c r).
+  (hd_ascii r = true -> wf_type c = true) /\ (type_ends_word c = true -> nid r = true) /\ whead (pr_type c r).
 
 Lemma type_of_inv (pty : parser Ty) :
   (forall i r t, pty i = POk r t -> exists c, i = pr_ty c r /\ erase_ty c = t /\ tyP c r) ->
@@ -160,15 +165,15 @@ Proof.
     + binv E1. inversion E1; subst. destruct (oblank_inv _ _ _ _ EB) as [bl [-> [Kb _]]].
       destruct (anns_inv lf _ _ _ E2) as [cs [-> [<- Wa]]].
       destruct (Hty _ _ _ E) as [c [-> [<- [Hw [He Hn]]]]].
-      exists (CType c (Some (bl, cs))). unfold typeP. cbn [pr_type erase_type wf_type heads_ok_type type_ends_word unwrap_or_default].
+      exists (CType c (Some (bl, cs))). unfold typeP. cbn [pr_type erase_type wf_type type_ends_word unwrap_or_default].
       split; [reflexivity|]. split; [reflexivity|]. split; [|split; [discriminate|exact Hn]].
-      intros Hh. rewrite (Hw Hh), Wa. rewrite (blank_ok_nonnil _ _ Kb); [reflexivity|]. unfold pr_anns. discriminate.
+      intros _. rewrite (Hw (blank_ok_ascii _ _ Kb eq_refl)), Wa. rewrite (blank_ok_nonnil _ _ Kb); [reflexivity|]. unfold pr_anns. discriminate.
     + unfold opt in EB. destruct (p_blank lf i0); discriminate.
     + unfold opt in EB. destruct (p_blank lf i0); discriminate.
     + unfold opt in EB. destruct (p_blank lf i0); try discriminate.
     + unfold opt in EB. destruct (p_blank lf i0); try discriminate.
   - destruct (Hty _ _ _ E) as [c [-> [<- [Hw [He Hn]]]]].
-    exists (CType c None). unfold typeP. cbn [pr_type erase_type wf_type heads_ok_type type_ends_word unwrap_or_default]. repeat split; auto.
+    exists (CType c None). unfold typeP. cbn [pr_type erase_type wf_type type_ends_word unwrap_or_default]. repeat split; auto.
 Qed.
 
 Lemma base_inv kw T i r t : p_base_ty kw T i = POk r t -> i = kw ++ r /\ t = T /\ kwend r.
@@ -181,13 +186,13 @@ Theorem ty_inv : forall d i r t, p_ty lf d i = POk r t -> exists c, i = pr_ty c 
 Proof.
   induction d as [|d IH]; intros i r t H; [discriminate|]. rewrite p_ty_eq in H.
   pose proof (type_of_inv (p_ty lf d) IH) as IHT.
-  apply alt_app_inv in H. destruct H as [[p [Hin H]]|H].
+  apply alt_app_inv_err in H. destruct H as [[p [Hin H]]|[Hbase H]].
   - (* base types *)
     unfold base_alts in Hin. cbn [In] in Hin.
     assert (G : forall kw T B, base_kw B = kw -> base_ast B = T -> p_base_ty kw T i = POk r t ->
                 exists c, i = pr_ty c r /\ erase_ty c = t /\ tyP c r).
     { intros kw T B E1 E2 Hb. subst kw T. destruct (base_inv _ _ _ _ _ Hb) as [-> [-> Hk]]. exists (CTBase B). unfold tyP.
-      cbn [pr_ty erase_ty ty_ends_word heads_ok_ty wf_ty]. repeat split; auto.
+      cbn [pr_ty erase_ty ty_ends_word wf_ty]. repeat split; auto.
       - intros _. now apply kwend_nid.
       - destruct B; eexists _, _; split; reflexivity. }
     repeat (destruct Hin as [<-|Hin]; [first [apply (G _ _ BString eq_refl eq_refl H) | apply (G _ _ BVoid eq_refl eq_refl H)
@@ -204,8 +209,9 @@ Proof.
       destruct (IHT _ _ _ E3) as [ci [-> [<- [Hw [He Hn]]]]]. destruct (oblank_inv _ _ _ _ E4) as [b3 [-> [K3 _]]].
       apply tag_inv in E5. destruct E5 as [-> _]. destruct (ocpp_inv _ _ _ E6) as [cpp [-> [<- Wc]]].
       exists (CTList b1 b2 ci b3 cpp). cbn [pr_ty erase_ty]. split; [reflexivity|]. split; [reflexivity|]. split; [|split; [discriminate|eexists _, _; split; reflexivity]].
-      intros Hh. cbn [heads_ok_ty wf_ty] in *. rewrite (blank_ok_nonnil _ _ K1) by discriminate.
-      rewrite (blank_ok_nonnil _ _ K2) by (apply whead_nonnil, Hn). rewrite (Hw Hh). rewrite (blank_ok_nonnil _ _ K3) by discriminate. now rewrite Wc.
+      intros _. cbn [wf_ty] in *. rewrite (blank_ok_nonnil _ _ K1) by discriminate.
+      rewrite (blank_ok_nonnil _ _ K2) by (apply whead_nonnil, Hn). rewrite (Hw (blank_ok_ascii _ _ K3 eq_refl)).
+      rewrite (blank_ok_nonnil _ _ K3) by discriminate. now rewrite Wc.
     + (* set *)
       unfold alt_set in H. binv H. inversion H; subst.
       apply tag_inv in E. destruct E as [-> _]. destruct (ocpp_inv _ _ _ E0) as [cpp [-> [<- Wc]]].
@@ -214,8 +220,9 @@ Proof.
       destruct (IHT _ _ _ E4) as [ci [-> [<- [Hw [He Hn]]]]]. destruct (oblank_inv _ _ _ _ E5) as [b3 [-> [K3 _]]].
       apply tag_inv in E6. destruct E6 as [-> _].
       exists (CTSet cpp b1 b2 ci b3). cbn [pr_ty erase_ty]. split; [reflexivity|]. split; [reflexivity|]. split; [|split; [discriminate|eexists _, _; split; reflexivity]].
-      intros Hh. cbn [heads_ok_ty wf_ty] in *. rewrite Wc. rewrite (blank_ok_nonnil _ _ K1) by discriminate.
-      rewrite (blank_ok_nonnil _ _ K2) by (apply whead_nonnil, Hn). rewrite (Hw Hh). now rewrite (blank_ok_nonnil _ _ K3) by discriminate.
+      intros _. cbn [wf_ty] in *. rewrite Wc. rewrite (blank_ok_nonnil _ _ K1) by discriminate.
+      rewrite (blank_ok_nonnil _ _ K2) by (apply whead_nonnil, Hn). rewrite (Hw (blank_ok_ascii _ _ K3 eq_refl)).
+      now rewrite (blank_ok_nonnil _ _ K3) by discriminate.
     + (* map *)
       unfold alt_map in H. binv H. inversion H; subst.
       apply tag_inv in E. destruct E as [-> _]. destruct (ocpp_inv _ _ _ E0) as [cpp [-> [<- Wc]]].
@@ -227,15 +234,27 @@ Proof.
       destruct (IHT _ _ _ E8) as [cv [-> [<- [Hwv [Hev Hnv]]]]]. destruct (oblank_inv _ _ _ _ E9) as [b5 [-> [K5 _]]].
       apply tag_inv in E10. destruct E10 as [-> _].
       exists (CTMap cpp b1 b2 ck b3 semi b4 cv b5). cbn [pr_ty erase_ty]. split; [reflexivity|]. split; [reflexivity|]. split; [|split; [discriminate|eexists _, _; split; reflexivity]].
-      intros Hh. cbn [heads_ok_ty wf_ty] in *. apply andb_prop in Hh. destruct Hh as [Hh1 Hh2]. rewrite Wc.
-      rewrite (blank_ok_nonnil _ _ K1) by discriminate. rewrite (blank_ok_nonnil _ _ K2) by (apply whead_nonnil, Hnk). rewrite (Hwk Hh1).
+      intros _. cbn [wf_ty] in *. rewrite Wc.
+      rewrite (blank_ok_nonnil _ _ K1) by discriminate. rewrite (blank_ok_nonnil _ _ K2) by (apply whead_nonnil, Hnk).
+      rewrite (Hwk (blank_ok_ascii _ _ K3 ltac:(destruct semi; reflexivity))).
       rewrite (blank_ok_nonnil _ _ K3) by (destruct semi; discriminate). rewrite (blank_ok_nonnil _ _ K4) by (apply whead_nonnil, Hnv).
-      rewrite (Hwv Hh2). now rewrite (blank_ok_nonnil _ _ K5) by discriminate.
+      rewrite (Hwv (blank_ok_ascii _ _ K5 eq_refl)). now rewrite (blank_ok_nonnil _ _ K5) by discriminate.
     + (* path *)
       apply alt_one_inv in H. apply pmap_ok in H. destruct H as [l [H ->]].
       destruct (path_inv _ _ _ _ H) as [p [-> [<- [Wp [He Hnr]]]]].
       exists (CTPath p). cbn [pr_ty erase_ty]. repeat split.
-      * cbn [heads_ok_ty wf_ty]. intros Hh. now rewrite Wp, Hh.
+      * cbn [wf_ty]. intros Ha. rewrite Wp. cbn [andb]. apply negb_true_iff.
+        destruct (bytes_in (cp_head p) base_words) eqn:Eb; [|reflexivity]. exfalso.
+        pose proof Wp as Wp'. unfold wf_path in Wp'. apply andb_prop in Wp'. destruct Wp' as [_ Wt].
+        (* the base-type alternative of that word failed although the word is followed by the rest of the path *)
+        unfold base_alts in Hbase. unfold pr_path in Hbase.
+        assert (G : forall kw T, bytes_eq (cp_head p) kw = true -> is_perr (p_base_ty kw T (cp_head p ++ pr_path_tail (cp_tail p) r)) -> False).
+        { intros kw T Ek Hb. apply bytes_eq_eq in Ek. rewrite Ek in Hb. unfold p_base_ty in Hb.
+          apply (keyword_path_ascii kw (cp_tail p) r Wt Ha Hnr).
+          destruct (p_keyword kw (kw ++ pr_path_tail (cp_tail p) r)); cbn in Hb |- *; auto. }
+        repeat match goal with H : Forall _ (_ :: _) |- _ => inversion H; clear H; subst end.
+        cbn [bytes_in base_words] in Eb.
+        repeat (apply orb_prop in Eb; destruct Eb as [Eb|Eb]; [eapply G; [exact Eb|eassumption]|]). discriminate Eb.
       * intros _. exact Hnr.
       * cbn [pr_ty]. unfold pr_path. unfold wf_path in Wp. apply andb_prop in Wp. destruct Wp as [Wh _].
         destruct (cp_head p) as [|h0 hs]; [discriminate Wh|]. cbn [is_ident] in Wh. apply andb_prop in Wh. destruct Wh as [Wh _].
